@@ -29,11 +29,14 @@ RULE = (
     "data or L != R, AND some sequence has length >= 2 or the application is a composite/right action."
 )
 ASSUMPTIONS = ["operands are dense numpy arrays or scipy sparse matrices wrapped by aslinearoperator"]
-REQUIRED_CLASSES = {"all": ["class=orthonormal", "class=biorthogonal", "class=general", "class=near_hermitian", "complex", "app=compose", "app=rmatvec", "app=right", "seqlen>=3", "mixed-dtype-vectors"]}
+REQUIRED_CLASSES = {"all": ["class=orthonormal", "class=biorthogonal", "class=general", "class=near_hermitian", "complex", "app=compose", "app=rmatvec", "app=right", "seqlen>=3", "mixed-dtype-vectors", "app=self-compose"]}
 
 UNARY = ["T", "H", "conj", "adjoint", "transpose"]
 APPS = ["left_vec", "left_col", "left_mat", "right_vec", "right_mat", "matvec", "rmatvec", "matmat", "rmatmat",
-        "PA", "AP", "PAP", "PAP_H", "PAP_T", "x_PAP", "PAP_rmatvec", "PAP_rmatmat", "PP", "AP_H_left"]
+        "PA", "AP", "PAP", "PAP_H", "PAP_T", "x_PAP", "PAP_rmatvec", "PAP_rmatmat", "PP", "AP_H_left",
+        # the projector composed with itself (and with its own adjoint) AS OPERATORS: 1 - R L^dagger is idempotent only
+        # when L^dagger R = 1, so for general L these composites differ from the projector
+        "PP_op", "PP_op_H", "x_PP_op", "PHP_op", "P_times_P"]
 
 
 @st.composite
@@ -188,6 +191,16 @@ def check_case(case, enforce_all=False):
                 got, exp = P @ (P @ xm), D @ (D @ xm)
             elif app == "AP_H_left":
                 got, exp = (Aop @ P).H @ xm, (A @ D).conj().T @ xm
+            elif app == "PP_op":
+                got, exp = (P @ P) @ xm, D @ D @ xm
+            elif app == "PP_op_H":
+                got, exp = (P @ P).H @ xm, (D @ D).conj().T @ xm
+            elif app == "x_PP_op":
+                got, exp = ym @ (P @ P), ym @ D @ D
+            elif app == "PHP_op":
+                got, exp = (P.H @ P) @ xm, D.conj().T @ D @ xm
+            elif app == "P_times_P":
+                got, exp = (P * P) @ xm, D @ D @ xm
             else:
                 raise AssertionError(app)
         except Exception as exc:  # noqa: BLE001
@@ -206,7 +219,8 @@ def check_case(case, enforce_all=False):
             out.fail("shape", f"after {seq}: shape {P.shape} dtype {P.dtype}")
             return out
         group = {"PA": "compose", "AP": "compose", "PAP": "compose", "PAP_H": "compose", "PAP_T": "compose", "x_PAP": "compose",
-                 "PAP_rmatvec": "compose", "PAP_rmatmat": "compose", "AP_H_left": "compose", "rmatvec": "rmatvec", "rmatmat": "rmatvec",
+                 "PAP_rmatvec": "compose", "PAP_rmatmat": "compose", "AP_H_left": "compose", "PP_op": "self-compose", "PP_op_H": "self-compose", "x_PP_op": "self-compose", "PHP_op": "self-compose",
+                 "P_times_P": "self-compose", "rmatvec": "rmatvec", "rmatmat": "rmatvec",
                  "right_vec": "right", "right_mat": "right"}.get(app, "left")
         out.labels.append("app=" + group)
         if len(seq) >= 3:
